@@ -43,7 +43,7 @@ open MakoModel.Generated.NsAttrs (nsAttrs)
 exactly one namespace and one context per template: namespace `i` belongs to template `i`, owns context `i` and
 its `inherits` link is namespace `i+1` (none at the base); in context `i`, `self` is namespace 0 (the most
 derived) at every level, `local` is `i`, `parent` is `i+1` (absent at the base), `next` is `i-1` (absent at `T₀`). -/
-theorem chain_built (c : List Level) (hwf : wf c = true) :
+theorem chain_built (c : List Level) (hwf : wf c = true) (hc : compiles c = true) :
     ∃ h callable, populateSelf c = .ok (h, callable) ∧
       h.nss.length = c.length ∧ h.ctxs.length = c.length ∧
       (∀ i, i < c.length →
@@ -52,11 +52,11 @@ theorem chain_built (c : List Level) (hwf : wf c = true) :
         h.ctxs[i]? = some { self := some 0, loc := some i,
                             next := if i = 0 then none else some (i - 1),
                             parent := if i + 1 < c.length then some (i + 1) else none }) := by
-  refine ⟨builtHeap c.length, _, populateSelf_built c hwf, builtHeap_nss_length _, builtHeap_ctxs_length _, ?_, ?_⟩
+  refine ⟨builtHeap c.length, _, populateSelf_built c hwf hc, builtHeap_nss_length _, builtHeap_ctxs_length _, ?_, ?_⟩
   · intro i hi; rw [builtHeap_nss_get]; simp [hi, builtNS]
   · intro i hi; rw [builtHeap_ctxs_get]; simp [hi, builtCtx]
 
-example : wf ex3 = true := by decide
+example : wf ex3 = true ∧ compiles ex3 = true := by decide
 
 /-- **render_starts_at_base.**  The callable `_render_context` executes is the body of the base-most template
 `T_m`, with `T_m`'s context, and it receives the render arguments through `T_m`'s `<%page>` signature -
@@ -70,11 +70,10 @@ theorem render_starts_at_base (c : List Level) (hwf : wf c = true) (hc : compile
         | some (b, e) =>
           exec c (heapDispatch c h) fuel
             { tmpl := c.length - 1, ctx := c.length - 1, bound := b, pageargs := some e } base.nodes) := by
-  refine ⟨builtHeap c.length, populateSelf_built c hwf, ?_⟩
-  simp only [render, hc, Bool.not_true, Bool.false_eq_true, if_false, populateSelf_built c hwf, invoke, hb,
-    Option.bind_some]
+  refine ⟨builtHeap c.length, populateSelf_built c hwf hc, ?_⟩
+  rw [render_built c hwf hc]
   have : base.member bodyName = some (MKind.body, base.nodes) := by simp [Level.member]
-  simp only [this, Option.map_some]
+  simp only [invoke, hb, Option.bind_some, this, Option.map_some]
   rfl
 
 example : compiles ex3 = true ∧ (ex3[ex3.length - 1]?).isSome = true := by decide
@@ -82,30 +81,30 @@ example : compiles ex3 = true ∧ (ex3[ex3.length - 1]?).isSome = true := by dec
 /-! ## member dispatch -/
 
 /-- the namespace each of the four names is bound to in the context of level `i` -/
-theorem refs_dispatch (c : List Level) (hwf : wf c = true) (h : Heap) (callable : Nat × Nat)
+theorem refs_dispatch (c : List Level) (hwf : wf c = true) (hc : compiles c = true) (h : Heap) (callable : Nat × Nat)
     (hb : populateSelf c = .ok (h, callable)) (i : Nat) (hi : i < c.length) :
     (heapDispatch c h).ref i .self = some 0 ∧
     (heapDispatch c h).ref i .loc = some i ∧
     (heapDispatch c h).ref i .parent = (if i + 1 < c.length then some (i + 1) else none) ∧
     (heapDispatch c h).ref i .next = (if i = 0 then none else some (i - 1)) := by
-  rw [populateSelf_built c hwf] at hb
+  rw [populateSelf_built c hwf hc] at hb
   simp only [Except.ok.injEq, Prod.mk.injEq] at hb
   rw [← hb.1, heapDispatch_built]
   simp [specDispatch, ruleDispatch, hi]
 
-example : ∃ h cb, populateSelf ex3 = .ok (h, cb) := ⟨_, _, populateSelf_built ex3 (by decide)⟩
+example : ∃ h cb, populateSelf ex3 = .ok (h, cb) := ⟨_, _, populateSelf_built ex3 (by decide) (by decide)⟩
 
 /-- **member_dispatch** (partial: the name is not an attribute of mako's Namespace objects).
 Attribute access `ns_j.x` on the namespace of level `j` returns the definition of `x` (def, block or body) of the
 least level `i ≥ j` that declares it, bound to *that* level's context, and raises AttributeError when no level
 from `j` to the base declares it.  With `refs_dispatch`: `self.x` is the most derived definition (`j = 0`),
 `local.x` starts at the template itself, `parent.x` at `i+1`, `next.x` at `i-1`. -/
-theorem member_dispatch_partial (c : List Level) (hwf : wf c = true) (h : Heap) (callable : Nat × Nat)
+theorem member_dispatch_partial (c : List Level) (hwf : wf c = true) (hc : compiles c = true) (h : Heap) (callable : Nat × Nat)
     (hb : populateSelf c = .ok (h, callable)) (j : Nat) (x : Name) (hx : x ∉ nsAttrs) :
     (∀ i, j ≤ i → i < c.length → hasDef c i x = true → (∀ k, j ≤ k → k < i → hasDef c k x = false) →
         getattr c h j x = .member i i) ∧
     ((∀ i, j ≤ i → i < c.length → hasDef c i x = false) → getattr c h j x = .missing) := by
-  rw [populateSelf_built c hwf] at hb
+  rw [populateSelf_built c hwf hc] at hb
   simp only [Except.ok.injEq, Prod.mk.injEq] at hb
   have hd : getattr c h j x = (specDispatch c).getattr j x := by
     rw [← hb.1, ← heapDispatch_built]; rfl
@@ -120,12 +119,12 @@ example : ['b'] ∉ nsAttrs ∧ hasDef ex3 2 ['b'] = true ∧ hasDef ex3 1 ['b']
 
 /-- `.attr`: `ns_j.attr.x` is the module attribute of the least level `i ≥ j` that has one (no guard needed:
 `_NSAttr` is a separate object) -/
-theorem attr_dispatch (c : List Level) (hwf : wf c = true) (h : Heap) (callable : Nat × Nat)
+theorem attr_dispatch (c : List Level) (hwf : wf c = true) (hc : compiles c = true) (h : Heap) (callable : Nat × Nat)
     (hb : populateSelf c = .ok (h, callable)) (j : Nat) (x : Name) :
     (∀ i v, j ≤ i → i < c.length → attrAt c i x = some v → (∀ k, j ≤ k → k < i → attrAt c k x = none) →
         (heapDispatch c h).attr j x = some v) ∧
     ((∀ i, j ≤ i → i < c.length → attrAt c i x = none) → (heapDispatch c h).attr j x = none) := by
-  rw [populateSelf_built c hwf] at hb
+  rw [populateSelf_built c hwf hc] at hb
   simp only [Except.ok.injEq, Prod.mk.injEq] at hb
   rw [← hb.1, heapDispatch_built]
   simp only [specDispatch, ruleDispatch, firstAttr]
@@ -174,8 +173,7 @@ property text (`ruleDispatch`). -/
 theorem render_follows_rules_partial (c : List Level) (hwf : wf c = true) (hc : compiles c = true)
     (hn : ∀ x ∈ usedNames c, x ∉ nsAttrs) (fuel : Nat) (data : List (Name × Val)) :
     render c fuel data = ruleRender c fuel data := by
-  simp only [render, hc, Bool.not_true, Bool.false_eq_true, if_false, populateSelf_built c hwf, ruleRender,
-    heapDispatch_built]
+  rw [render_built c hwf hc, ruleRender, heapDispatch_built]
   apply invoke_congr
   intro env kids hk
   exact exec_congr c (specDispatch c) (ruleDispatch c) rfl rfl
@@ -191,7 +189,7 @@ base declares `b`, nothing is written here; otherwise the most-derived definitio
 `l`, the least one declaring `b`) runs once, in `l`'s own context, with the page arguments in scope, and its
 output is written here.  This holds wherever the position is (body, inside another block, inside an anonymous
 block) and whatever the declare/override pattern is. -/
-theorem named_block_position_partial (c : List Level) (hwf : wf c = true) (h : Heap) (callable : Nat × Nat)
+theorem named_block_position_partial (c : List Level) (hwf : wf c = true) (hc : compiles c = true) (h : Heap) (callable : Nat × Nat)
     (hb : populateSelf c = .ok (h, callable)) (i : Nat) (hi : i < c.length) (b : Name) (hx : b ∉ nsAttrs)
     (run : Env → List Node → Res) (env : Env) (henv : env.ctx = i) (ln : Nat) (kids : List Node) :
     ((∃ k, i < k ∧ k < c.length ∧ hasDef c k b = true) →
@@ -201,7 +199,7 @@ theorem named_block_position_partial (c : List Level) (hwf : wf c = true) (h : H
           match firstFrom c 0 b with
           | none => .error .attributeError
           | some l => invoke c run (.member l l) b [] (env.pageargs.getD [])) := by
-  rw [populateSelf_built c hwf] at hb
+  rw [populateSelf_built c hwf hc] at hb
   simp only [Except.ok.injEq, Prod.mk.injEq] at hb
   rw [← hb.1, heapDispatch_built]
   simp only [step, specDispatch, ruleDispatch, henv, hi, if_true, hx, if_false]
@@ -267,7 +265,7 @@ theorem named_block_counterexample :
 namespace `j` (`refs_dispatch`: `next` ↦ `i-1`, `self` ↦ 0, …): the body that runs is `T_j`'s own, in `T_j`'s
 context, and Python binds `pos`/`kw` against `T_j`'s `<%page args>` signature plus `**pageargs`: a TypeError when
 the binding fails, otherwise the body sees `bound`/`pageargs` as delivered by `bind` (see `bind_delivers`). -/
-theorem body_args_reach_page_signature (c : List Level) (hwf : wf c = true) (h : Heap) (callable : Nat × Nat)
+theorem body_args_reach_page_signature (c : List Level) (hwf : wf c = true) (hc : compiles c = true) (h : Heap) (callable : Nat × Nat)
     (hb : populateSelf c = .ok (h, callable)) (r : Ref) (j : Nat) (target : Level) (hj : c[j]? = some target)
     (run : Env → List Node → Res) (env : Env) (href : (heapDispatch c h).ref env.ctx r = some j)
     (pos : List Val) (kw : List (Name × Val)) :
@@ -280,7 +278,7 @@ theorem body_args_reach_page_signature (c : List Level) (hwf : wf c = true) (h :
     · exact hlt
     · rw [List.getElem?_eq_none hge] at hj; simp at hj
   simp only [step, href]
-  rw [populateSelf_built c hwf] at hb
+  rw [populateSelf_built c hwf hc] at hb
   simp only [Except.ok.injEq, Prod.mk.injEq] at hb
   rw [← hb.1, heapDispatch_built]
   have hnb : bodyName ∉ nsAttrs := by decide
